@@ -23,6 +23,7 @@ func init() {
 		"bechenc":  replayer(c07EvalBechEnc),
 		"bechstr":  replayer(c07EvalBechStr),
 		"conv":     replayer(c07EvalConv),
+		"retain":   replayer(c07EvalRetain),
 	}})
 }
 
@@ -358,6 +359,7 @@ func runC07(c *mc.Ctx) {
 	c.Assume("reference models ref.B58*, ref.Bech32*, ref.Regroup are correct transcriptions of the Bitcoin wiki / BIP173 (self-tested against BIP173 vectors at start)")
 	c.Assume("byte strings longer than the enumerated lengths behave like the enumerated ones (outside the bound)")
 	c07SelfTest(c)
+	runC07Retain(c)
 
 	all := allBytes()
 	// 1. Base58 bytes: all strings of length <= 2 (quick) / <= 3 (thorough), plus structured longer ones.
@@ -646,6 +648,20 @@ func runC07(c *mc.Ctx) {
 			}
 			strs = append(strs, s[:pos]+s[pos+1:]) // deletion
 			strs = append(strs, s[:pos]+"1"+s[pos:], s[:pos]+"q"+s[pos:])
+		}
+		// every byte value INSERTED at every position of the valid string (a decoder that drops what it
+		// does not recognise still sees a valid checksum), and substituted at every position
+		if len(s) <= 40 {
+			for pos := 0; pos <= len(s); pos++ {
+				for v := 0; v < 256; v++ {
+					strs = append(strs, s[:pos]+string([]byte{byte(v)})+s[pos:])
+					if pos < len(s) && byte(v) != s[pos] {
+						m := []byte(s)
+						m[pos] = byte(v)
+						strs = append(strs, string(m))
+					}
+				}
+			}
 		}
 	}
 	for _, s := range bases[:8] { // non-ASCII runes that case-fold into ASCII, in lower- and upper-case strings
